@@ -4,7 +4,7 @@ import os
 from .. import common as C
 
 # the model follows the code: flip when the corresponding repair is committed in /repo (known_findings.json)
-MODEL_FIXED_D2 = False
+MODEL_FIXED_D2 = True
 MODEL_FIXED_D10 = False
 
 INVS = ["C06", "C08", "C11", "C12", "C13", "IndexNeverOutlivesData"]
